@@ -243,6 +243,16 @@ class StmtMixin:
                     h(Ctx(self, fr, "with " + text, node), "exit", {})
                 return
             if text.endswith("_lock") or text.endswith(".lock") or "lock" in text.lower():
+                top = getattr(self, "top_contract", None)
+                acq = top.options.get("on_lock_acquire") if top is not None else None
+                if acq is not None and isinstance(node, ast.AsyncWith):
+                    # acquiring an asyncio lock may suspend: other coroutines run BEFORE the lock is held
+                    from .api import Ctx
+                    try:
+                        self.ev(item.context_expr, fr)
+                    except Unsupported:
+                        pass
+                    acq(Ctx(self, fr, "acquire " + text, node))
                 depth = self.st.ghost.get("$lock:" + text, 0)
                 self.st.ghost["$lock:" + text] = depth + 1
                 try:
